@@ -20,6 +20,7 @@ RULE = (
     "extent/offset; every 5th also of bins/pixels/matrix fetch (1 and 2 regions) and GenomeSegmentation/bedslice. "
     "Non-trivial = an end point on a bin edge, inside the last bin, at 0 or L, or a zero-length range, on a "
     "non-fixed table or a chromosome with a short last bin. Distinct by (digest of table+matrix, region)."
+    ' Empty ranges are also evaluated through bins()/pixels()/matrix().fetch; a history re-creates the same path with other bin boundaries (same bin counts) before the queries.'
 )
 ASSUMPTIONS = [
     "zero-length range at a chromosome end: 'the bin containing the position' is read as closed on the right (DESIGN section 4 rule 7)",
